@@ -10,8 +10,8 @@
 //              (c) first decisive token decides                                       lemma_date_letter, lemma_ampm, lemma_bracket,
 //                  MAIN THEOREM lemma_scan_classify: wf(s) ==> scan(s) == classify(s), classify/tok = tokenizer written from
 //                  the grammar; wf = explicit side conditions (see `tok`, every `Tok::Bad`); exported as C10.first_decisive_token.
-//   Genuine findings (findings/formats.json): lemma_quoted_body FAILS (escape arm precedes quote arms; formal counterexample
-//   counterexample_quoted_underscore), `brackets += 1` overflows u8 (C06).
+//   Former findings, fixed in the code (findings/formats.json "fixed"): escape arm preceded the quote arms (lemma_quoted_body
+//   now proved unconditionally); `brackets: u8` overflow (now usize, bounded by the number of characters read).
 // format_excel_i64 / format_excel_f64_ref / format_excel_f64, ExcelDateTime::new, From<DataRef> for Data: shape, flavour,
 //   date system (and the f64 value) here; value bits of the i64 variant and everything again bit-precisely in kani/formats.rs.
 // builtin_format_by_id / builtin_format_by_code: complete Kani harnesses (kani/formats.rs), oracle ECMA-376 18.8.30.
@@ -49,9 +49,9 @@ pub open spec fn is_ampm_tail(c: char) -> bool { c == 'p' || c == 'm' || c == '/
 
 pub open spec fn step(st: St, c: char) -> Step {
     if st.escaped { Step::Cont(St { escaped: false, prev: c, ..st }) }
-    else if is_esc(c) { Step::Cont(St { escaped: true, prev: c, ..st }) }
     else if st.quoted { Step::Cont(St { quoted: c != '"', prev: c, ..st }) }
     else if c == '"' { Step::Cont(St { quoted: true, prev: c, ..st }) }
+    else if is_esc(c) { Step::Cont(St { escaped: true, prev: c, ..st }) }
     else if c == ';' { Step::Done(CellFormat::Other) }
     else if c == '[' { Step::Cont(St { brackets: st.brackets + 1, prev: c, ..st }) }
     else if c == ']' {
@@ -126,7 +126,6 @@ pub proof fn lemma_scan_cons(c: char, rest: Seq<char>, st: St)
 }
 
 pub open spec fn no_char(s: Seq<char>, c: char) -> bool { forall|i: int| 0 <= i < s.len() ==> #[trigger] s[i] != c }
-pub open spec fn no_esc(s: Seq<char>) -> bool { forall|i: int| 0 <= i < s.len() ==> !p_escape(#[trigger] s[i]) }
 pub open spec fn last_or(s: Seq<char>, d: char) -> char { if s.len() == 0 { d } else { s.last() } }
 
 // ---- (a) literals --------------------------------------------------------------------------
@@ -136,10 +135,8 @@ pub open spec fn quoted_body_ignored(lit: Seq<char>, rest: Seq<char>, st: St) ->
     scan(lit + rest, st) == scan(rest, St { prev: last_or(lit, st.prev), ..st })
 }
 
-/// PROPERTY FORM: inside a quoted literal nothing but the closing quote matters -- whatever the literal contains.
-/// FAILS on the real code (finding formats_1): the `_`/`\` arm precedes the quote arms, so `\` and `_` inside a literal
-/// make the next character (possibly the closing quote) invisible. See counterexample_quoted_underscore.
-/// The proof is the plain induction; it goes through as soon as the quote arms precede the escape arm (self-test S5).
+/// PROPERTY FORM: inside a quoted literal nothing but the closing quote matters -- whatever the literal contains
+/// (in particular `\` and `_` are ordinary characters there).
 pub proof fn lemma_quoted_body(lit: Seq<char>, rest: Seq<char>, st: St)
     requires st.quoted, !st.escaped, no_char(lit, '"'),
     ensures
@@ -163,53 +160,12 @@ pub proof fn lemma_quoted_body(lit: Seq<char>, rest: Seq<char>, st: St)
     }
 }
 
-/// weak form kept so that every OTHER break of quote handling is still caught: the literal has no `\` and `_`
-pub proof fn lemma_quoted_body_noesc(lit: Seq<char>, rest: Seq<char>, st: St)
-    requires st.quoted, !st.escaped, no_char(lit, '"'), no_esc(lit),
-    ensures
-        //# C10.quoted_ignored_noesc
-        quoted_body_ignored(lit, rest, st),
-    decreases lit.len(),
-{
-    if lit.len() == 0 {
-        assert(lit + rest =~= rest);
-    } else {
-        let c = lit[0];
-        assert(lit + rest =~= sq(c) + (lit.drop_first() + rest));
-        lemma_scan_cons(c, lit.drop_first() + rest, st);
-        assert(c != '"' && !p_escape(c));
-        let st2 = St { prev: c, ..st };
-        assert(step(st, c) == Step::Cont(st2));
-        assert forall|i: int| 0 <= i < lit.drop_first().len() implies lit.drop_first()[i] != '"' && !p_escape(#[trigger] lit.drop_first()[i]) by {
-            assert(lit.drop_first()[i] == lit[i + 1]);
-        }
-        lemma_quoted_body_noesc(lit.drop_first(), rest, st2);
-        if lit.drop_first().len() > 0 { assert(lit.drop_first().last() == lit.last()); }
-    }
-}
-
 /// scanning "lit" rest  from st  ==  scanning rest from st (only `prev` remembers the closing quote)
 pub open spec fn quoted_literal_ignored(lit: Seq<char>, rest: Seq<char>, st: St) -> bool {
     scan(sq('"') + lit + sq('"') + rest, st) == scan(rest, St { prev: '"', ..st })
 }
 
-/// a complete quoted literal "lit" (lit without `"`, `\`, `_`) is skipped: only `prev` remembers it
-pub proof fn lemma_quoted_ignored_noesc(lit: Seq<char>, rest: Seq<char>, st: St)
-    requires !st.quoted, !st.escaped, no_char(lit, '"'), no_esc(lit),
-    ensures
-        //# C10.quoted_ignored_noesc
-        quoted_literal_ignored(lit, rest, st),
-{
-    let s = sq('"') + lit + sq('"') + rest;
-    assert(s =~= sq('"') + (lit + (sq('"') + rest)));
-    lemma_scan_cons('"', lit + (sq('"') + rest), st);
-    let st1 = St { quoted: true, prev: '"', ..st };
-    lemma_quoted_body_noesc(lit, sq('"') + rest, st1);
-    let st2 = St { prev: last_or(lit, '"'), ..st1 };
-    lemma_scan_cons('"', rest, st2);
-}
-
-/// PROPERTY FORM of the complete literal; rests on lemma_quoted_body (which fails, finding formats_1)
+/// a complete quoted literal "lit" is skipped as a whole: only `prev` remembers it
 pub proof fn lemma_quoted_ignored(lit: Seq<char>, rest: Seq<char>, st: St)
     requires !st.quoted, !st.escaped, no_char(lit, '"'),
     ensures
@@ -226,15 +182,15 @@ pub proof fn lemma_quoted_ignored(lit: Seq<char>, rest: Seq<char>, st: St)
 }
 
 /// an unterminated quoted literal swallows the rest of the string
-pub proof fn lemma_quoted_unterminated_noesc(lit: Seq<char>, st: St)
-    requires !st.quoted, !st.escaped, no_char(lit, '"'), no_esc(lit),
+pub proof fn lemma_quoted_unterminated(lit: Seq<char>, st: St)
+    requires !st.quoted, !st.escaped, no_char(lit, '"'),
     ensures
         //# C10.quoted_unterminated
         scan(sq('"') + lit, st) == CellFormat::Other,
 {
     lemma_scan_cons('"', lit, st);
     let st1 = St { quoted: true, prev: '"', ..st };
-    lemma_quoted_body_noesc(lit, Seq::<char>::empty(), st1);
+    lemma_quoted_body(lit, Seq::<char>::empty(), st1);
     assert(lit + Seq::<char>::empty() =~= lit);
 }
 
@@ -517,10 +473,8 @@ pub open spec fn tok(s: Seq<char>, g: bool) -> Tok
     let c = s[0];
     if c == '"' {
         let j = first_idx(s.skip(1), '"');
-        if j < 0 {
-            if no_esc(s.skip(1)) { Tok::End } else { Tok::Bad }
-        } else if no_esc(s.subrange(1, 1 + j)) { Tok::Skip(j + 2) }
-        else { Tok::Bad }   // side condition forced by finding formats_1: a literal containing `\` or `_`
+        if j < 0 { Tok::End }   // unterminated literal: runs to the end of the string
+        else { Tok::Skip(j + 2) }
     } else if p_escape(c) {
         if s.len() >= 2 { Tok::Skip(2) } else { Tok::End }
     } else if c == ';' {
@@ -638,14 +592,14 @@ pub proof fn lemma_scan_classify(s: Seq<char>, st: St, g: bool)
         let j = first_idx(r1, '"');
         lemma_first_idx(r1, '"');
         if j < 0 {
-            lemma_quoted_unterminated_noesc(r1, st);
+            lemma_quoted_unterminated(r1, st);
         } else {
             let lit = s.subrange(1, 1 + j);
             let rest = s.skip(j + 2);
             assert(lit =~= r1.take(j));
             assert(r1[j] == '"');
             assert(s =~= sq('"') + lit + sq('"') + rest);
-            lemma_quoted_ignored_noesc(lit, rest, st);
+            lemma_quoted_ignored(lit, rest, st);
             lemma_scan_classify(rest, St { prev: '"', ..st }, g);
         }
     } else if p_escape(c) {
@@ -685,38 +639,6 @@ pub proof fn lemma_scan_classify(s: Seq<char>, st: St, g: bool)
 }
 
 
-/// Why lemma_quoted_body cannot be proved (remove together with finding formats_1 once the code is fixed): the automaton (= the code, by C10.scan_automaton) reads "x_"dd as Other,
-/// i.e. this instance of the property is FALSE for the code (finding formats_1), it is not a proof gap.
-pub proof fn counterexample_quoted_underscore()
-    ensures
-        scan(seq!['"', 'x', '_', '"', 'd', 'd'], init()) == CellFormat::Other,
-        scan(seq!['d', 'd'], St { prev: '"', ..init() }) == CellFormat::DateTime,
-        !quoted_literal_ignored(seq!['x', '_'], seq!['d', 'd'], init()),
-{
-    let s = seq!['"', 'x', '_', '"', 'd', 'd'];
-    let e = Seq::<char>::empty();
-    assert(s =~= sq('"') + seq!['x', '_', '"', 'd', 'd']);
-    lemma_scan_cons('"', seq!['x', '_', '"', 'd', 'd'], init());
-    let s1 = St { quoted: true, prev: '"', ..init() };
-    assert(seq!['x', '_', '"', 'd', 'd'] =~= sq('x') + seq!['_', '"', 'd', 'd']);
-    lemma_scan_cons('x', seq!['_', '"', 'd', 'd'], s1);
-    let s2 = St { prev: 'x', ..s1 };
-    assert(seq!['_', '"', 'd', 'd'] =~= sq('_') + seq!['"', 'd', 'd']);
-    lemma_scan_cons('_', seq!['"', 'd', 'd'], s2);
-    let s3 = St { escaped: true, prev: '_', ..s2 };
-    assert(seq!['"', 'd', 'd'] =~= sq('"') + seq!['d', 'd']);
-    lemma_scan_cons('"', seq!['d', 'd'], s3);
-    let s4 = St { escaped: false, prev: '"', ..s3 };
-    assert(s4.quoted);
-    assert(seq!['d', 'd'] =~= sq('d') + seq!['d']);
-    lemma_scan_cons('d', seq!['d'], s4);
-    let s5 = St { prev: 'd', ..s4 };
-    assert(seq!['d'] =~= sq('d') + e);
-    lemma_scan_cons('d', e, s5);
-    lemma_scan_cons('d', seq!['d'], St { prev: '"', ..init() });
-    assert(s =~= sq('"') + seq!['x', '_'] + sq('"') + seq!['d', 'd']);
-}
-
 // ---- witnesses: the side conditions are satisfiable and the declarative spec says what the property says -----------
 pub proof fn witness_elapsed_bracket()
     ensures
@@ -752,7 +674,6 @@ pub proof fn witness_quoted_then_date()
     assert(first_idx(r1, '"') == 1);
     let c = s.subrange(1, 2);
     assert(c.len() == 1 && c[0] == 'd');
-    assert(no_esc(c));
     assert(tok(s, false) == Tok::Skip(3));
     let r3 = s.skip(3);
     assert(r3.len() == 1 && r3[0] == 'y');
@@ -767,7 +688,6 @@ pub proof fn witness_quoted_then_date()
     assert(first_idx(q1, '"') == 1);
     let c2 = s2.subrange(1, 2);
     assert(c2.len() == 1 && c2[0] == 'd');
-    assert(no_esc(c2));
     assert(tok(s2, false) == Tok::Skip(3));
     let q3 = s2.skip(3);
     assert(q3.len() == 1 && q3[0] == '0');
@@ -796,8 +716,8 @@ pub proof fn witness_second_section()
 pub proof fn witness_lemmas()
 {
     let e = Seq::<char>::empty();
-    lemma_quoted_ignored_noesc(seq!['d'], e, init());
-    lemma_quoted_unterminated_noesc(seq!['d'], init());
+    lemma_quoted_ignored(seq!['x', '_'], e, init());
+    lemma_quoted_unterminated(seq!['d', '\\'], init());
     lemma_escape_ignored('\\', 'd', e, init());
     lemma_bracket(seq!['R', 'e', 'd'], e, init());
     lemma_section_end(e, seq!['d'], init());
@@ -818,6 +738,19 @@ pub proof fn witness_lemmas()
 pub assume_specification[ char::eq_ignore_ascii_case ](a: &char, b: &char) -> (r: bool)
     ensures r == (ascii_lower(*a) == ascii_lower(*b));
 
+// TRUSTED: the number of chars of a str fits a usize (a str occupies at most isize::MAX bytes, every char at least one byte).
+// vstd states the same fact only through the total exec spec `str::unicode_len(&self) -> (l: usize) ensures self@.len() == l`,
+// which a proof cannot call; `check_str_len_fits_usize` below re-derives the axiom from that spec in exec mode.
+#[verifier::external_body]
+pub proof fn axiom_str_len_fits_usize(s: &str)
+    ensures s@.len() <= usize::MAX,
+{}
+fn check_str_len_fits_usize(s: &str)
+    ensures s@.len() <= usize::MAX,
+{
+    let n = s.unicode_len();
+}
+
 //@@ fn src/formats.rs detect_custom_number_format props=C10 entry ret=r
 //@@ sig
     ensures
@@ -828,11 +761,15 @@ pub assume_specification[ char::eq_ignore_ascii_case ](a: &char, b: &char) -> (r
 //@@ before /for s in /
     proof {
         assert(format@.skip(0) =~= format@);
+        axiom_str_len_fits_usize(format);
         if wf(format@, false) { lemma_scan_classify(format@, init(), false); }
     }
 //@@ loop 0 it
         invariant
             it.seq() == format@,
+            // C06: the bracket depth never exceeds the number of characters read, which fits a usize
+            brackets <= it.index@,
+            format@.len() <= usize::MAX,
             wf(format@, false) ==> scan(format@, init()) == classify(format@, false),
             scan(format@, init()) == scan(format@.skip(it.index@ as int),
                 St { escaped: escaped, quoted: is_quote, brackets: brackets as int, ap: ap, hms: hms, prev: prev }),
